@@ -45,6 +45,55 @@ func (c *codecX) verifyFxPrims() {
 	c.fxSafe["ConsumeByteSliceCopy"] = c.fxSafe["ConsumeByteSlice"] && strings.HasPrefix(body("ConsumeByteSliceCopy"), "{ data := b.ConsumeByteSlice() ") &&
 		!strings.Contains(body("ConsumeByteSliceCopy"), "b.b[")
 	c.fxSafe["ConsumeCount"] = c.fxSafe["ConsumeUint32"] && body("ConsumeCount") == "{ return int(b.ConsumeUint32()) }"
+	c.verifyFxCopyPrims()
+}
+
+// verifyFxCopyPrims: the two primitives that copy INTO an existing slice (a caller's hint, the Buffer's own
+// backing array) are modelled as "the result is exactly the source bytes, whatever the destination held":
+//
+//	ConsumeByteSliceCopy(hint): result has length len(data) and equals data, for every hint
+//	(*Buffer).UnmarshalBinary(data): b.b equals data and b.off = 0, for every previous b.b
+//
+// That holds for the grow-by-append(make) / copy / reslice-to-n idiom (the destination is first made at least
+// len(src) long, so copy transfers all of src) and for append(dst[:0], src...). Any other body — in particular one
+// that tests cap(dst) but copies into dst's LENGTH — is reported, and the fact is emitted as false.
+func (c *codecX) verifyFxCopyPrims() {
+	pi, u := c.x.fx, c.u
+	one := func(name string, fd *ast.FuncDecl, shapes func(recv, arg string) []string) bool {
+		if fd == nil || fd.Body == nil || fd.Recv == nil || len(fd.Recv.List) != 1 || len(fd.Recv.List[0].Names) != 1 ||
+			len(fd.Type.Params.List) != 1 || len(fd.Type.Params.List[0].Names) != 1 {
+			u.fail("Buffer.%s: not found, or not a method with one named parameter", name)
+			return false
+		}
+		got := pi.bodyText(fd)
+		for _, want := range shapes(fd.Recv.List[0].Names[0].Name, fd.Type.Params.List[0].Names[0].Name) {
+			if got == want {
+				return true
+			}
+		}
+		u.fail("Buffer.%s at %s is not the grow-by-append(make)/copy idiom (nor append(dst[:0], src...)); the model's \"copies all of the source for every destination\" is not justified: %s", name, pi.pos(fd), got)
+		return false
+	}
+	cp := pi.funcDecl("Buffer.ConsumeByteSliceCopy")
+	okCopy := one("ConsumeByteSliceCopy", cp, func(b, hint string) []string {
+		return []string{
+			"{ data := " + b + ".ConsumeByteSlice() if grow := len(data) - len(" + hint + "); grow > 0 { " + hint + " = append(" + hint + ", make([]byte, grow)...) } n := copy(" + hint + ", data) " + hint + " = " + hint + "[:n] return " + hint + " }",
+			"{ data := " + b + ".ConsumeByteSlice() return append(" + hint + "[:0], data...) }",
+			"{ return append(" + hint + "[:0], " + b + ".ConsumeByteSlice()...) }",
+		}
+	})
+	ub := pi.funcDecl("Buffer.UnmarshalBinary")
+	okUnm := one("UnmarshalBinary", ub, func(b, data string) []string {
+		return []string{
+			"{ if grow := len(" + data + ") - len(" + b + ".b); grow > 0 { " + b + ".b = append(" + b + ".b, make([]byte, grow)...) } n := copy(" + b + ".b, " + data + ") " + b + ".b = " + b + ".b[:n] " + b + ".off = 0 return nil }",
+			"{ " + b + ".b = append(" + b + ".b[:0], " + data + "...) " + b + ".off = 0 return nil }",
+		}
+	})
+	if cp != nil && ub != nil {
+		u.pf("-- source: %s Buffer.ConsumeByteSliceCopy, %s Buffer.UnmarshalBinary\n", pi.pos(cp), pi.pos(ub))
+	}
+	u.pf("-- buffer.go: copying into an existing slice transfers ALL of the source (destination grown to len(src) before copy, result resliced to the copied count)\n")
+	u.pf("def fxCopyPrims : List (String × Bool) := [(\"Buffer.UnmarshalBinary\", %s), (\"ConsumeByteSliceCopy\", %s)]\n\n", leanBool(okUnm), leanBool(okCopy))
 }
 
 // typeNameOf: the named type of an expression (through pointers).
@@ -705,4 +754,249 @@ func (c *codecX) initUnmarshal(t string, fd *ast.FuncDecl, pairSafe bool) ([]cfi
 		return nil, false
 	}
 	return append(f, cfield{".pairs", "Extensions", pairSafe}), true
+}
+
+// ---- framing of the filexfer codec: readPacket, RawPacket.ReadFrom, RequestPacket.ReadFrom ----
+//
+// Recognised shape of readPacket(r, b, maxPacketLength) — a straight line of top-level statements:
+//   [ if cap(b) < 4 { b = make([]byte, <constant>) } ]          constant-size scratch for the length word
+//   if _, err := io.ReadFull(r, b[:4]); err != nil { return nil, err }
+//   length := unmarshalUint32(b)
+//   <length checks>                                              each a top-level `if` on length / int(length) without
+//                                                                init/else, all of whose paths return (nil, Err{Short,Long}Packet):
+//        if int(length) < K { [if int(length) < 0 { return nil, ErrLongPacket }] return nil, ErrShortPacket }
+//        if length > maxPacketLength { return nil, ErrLongPacket }
+//   [ if int(length) > cap(b) { b = make([]byte, length) } ]     nothing else inside
+//   n, err := io.ReadFull(r, b[:length])
+//   return b[:n], err
+// The limit check counts only as a top-level statement BEFORE the first statement that allocates or reads
+// `length` bytes: it then dominates them (no branch around it). A limit check anywhere else (e.g. inside the
+// allocation branch) is a recorded failure and fxRecvLongCheck = false.
+
+type fxRecvFacts struct {
+	longCheck, limitIsParam, readsFull, allocGuarded, wrappersOK bool
+	minLen, defaultMax                                           int64
+	pos                                                          string
+}
+
+const canonFxReadFromRaw = "{ b, err := readPacket(r, b, maxPacketLength) if err != nil { return err } return p.UnmarshalFrom(NewBuffer(b)) }"
+
+func (c *codecX) extractFxRecv() fxRecvFacts {
+	pi, u := c.x.fx, c.u
+	var r fxRecvFacts
+	if v, ok := pi.constInt("DefaultMaxPacketLength"); ok {
+		r.defaultMax = v
+	} else {
+		u.fail("filexfer.DefaultMaxPacketLength is not an integer constant")
+	}
+	fd := pi.funcDecl("readPacket")
+	if fd == nil {
+		u.fail("filexfer readPacket not found")
+		return r
+	}
+	r.pos = pi.pos(fd)
+	// signature: (r io.Reader, b []byte, maxPacketLength uint32)
+	var params []string
+	for _, f := range fd.Type.Params.List {
+		for _, n := range f.Names {
+			params = append(params, n.Name+" "+pi.nodeText(f.Type))
+		}
+	}
+	if strings.Join(params, ", ") != "r io.Reader, b []byte, maxPacketLength uint32" {
+		u.fail("filexfer readPacket: unexpected parameters (%s) at %s", strings.Join(params, ", "), r.pos)
+		return r
+	}
+	// the limit parameter must not be assigned anywhere
+	ast.Inspect(fd.Body, func(n ast.Node) bool {
+		if as, ok := n.(*ast.AssignStmt); ok {
+			for _, l := range as.Lhs {
+				if isIdent(l, "maxPacketLength") || isIdent(l, "length") && as.Tok != token.DEFINE {
+					u.fail("filexfer readPacket: %s is re-assigned at %s", pi.nodeText(l), pi.pos(as))
+				}
+			}
+		}
+		return true
+	})
+	stmts := fd.Body.List
+	i := 0
+	// optional scratch allocation of constant size
+	if i < len(stmts) {
+		if is, ok := stmts[i].(*ast.IfStmt); ok && is.Init == nil && is.Else == nil && pi.nodeText(is.Cond) == "cap(b) < 4" {
+			okScratch := false
+			if len(is.Body.List) == 1 {
+				if as, ok := is.Body.List[0].(*ast.AssignStmt); ok && len(as.Lhs) == 1 && isIdent(as.Lhs[0], "b") && len(as.Rhs) == 1 {
+					if call, ok := as.Rhs[0].(*ast.CallExpr); ok && isIdent(call.Fun, "make") && len(call.Args) == 2 && pi.nodeText(call.Args[0]) == "[]byte" {
+						if v, ok := pi.exprInt(call.Args[1]); ok && v >= 4 && v <= 4096 {
+							okScratch = true
+						}
+					}
+				}
+			}
+			if !okScratch {
+				u.fail("filexfer readPacket: scratch allocation is not `b = make([]byte, <constant 4..4096>)` at %s: %s", pi.pos(is), pi.nodeText(is))
+			}
+			i++
+		}
+	}
+	if i >= len(stmts) || pi.nodeText(stmts[i]) != "if _, err := io.ReadFull(r, b[:4]); err != nil { return nil, err }" {
+		u.fail("filexfer readPacket: header read not recognised (%s)", r.pos)
+		return r
+	}
+	i++
+	if i >= len(stmts) || pi.nodeText(stmts[i]) != "length := unmarshalUint32(b)" {
+		u.fail("filexfer readPacket: `length := unmarshalUint32(b)` does not follow the header read (%s)", r.pos)
+		return r
+	}
+	i++
+	// usesLength: the statement allocates or reads a length-dependent amount
+	touchesBody := func(s ast.Stmt) bool {
+		found := false
+		ast.Inspect(s, func(n ast.Node) bool {
+			switch x := n.(type) {
+			case *ast.CallExpr:
+				if isIdent(x.Fun, "make") || strings.HasPrefix(pi.nodeText(x.Fun), "io.") || strings.Contains(pi.nodeText(x.Fun), "Read") {
+					found = true
+				}
+			case *ast.SliceExpr:
+				found = true
+			}
+			return true
+		})
+		return found
+	}
+	// allErrReturns: every path through the block ends in `return nil, Err…Packet`; only ifs on length and returns inside
+	var allErrReturns func(b *ast.BlockStmt) bool
+	allErrReturns = func(b *ast.BlockStmt) bool {
+		if len(b.List) == 0 {
+			return false
+		}
+		for k, s := range b.List {
+			switch x := s.(type) {
+			case *ast.IfStmt:
+				if x.Init != nil || x.Else != nil || !strings.Contains(pi.nodeText(x.Cond), "length") || touchesBody(x) || !allErrReturns(x.Body) {
+					return false
+				}
+			case *ast.ReturnStmt:
+				if k != len(b.List)-1 || len(x.Results) != 2 || !isIdent(x.Results[0], "nil") ||
+					!(isIdent(x.Results[1], "ErrLongPacket") || isIdent(x.Results[1], "ErrShortPacket")) {
+					return false
+				}
+			default:
+				return false
+			}
+		}
+		_, lastIsRet := b.List[len(b.List)-1].(*ast.ReturnStmt)
+		return lastIsRet
+	}
+	minSeen := false
+	for ; i < len(stmts); i++ {
+		is, ok := stmts[i].(*ast.IfStmt)
+		if !ok || touchesBody(stmts[i]) {
+			break
+		}
+		if is.Init != nil || is.Else != nil {
+			u.fail("filexfer readPacket: length check with init/else at %s", pi.pos(is))
+			continue
+		}
+		be, ok := is.Cond.(*ast.BinaryExpr)
+		if !ok {
+			u.fail("filexfer readPacket: unrecognised condition at %s: %s", pi.pos(is), pi.nodeText(is.Cond))
+			continue
+		}
+		lhs, rhs := pi.nodeText(be.X), pi.nodeText(be.Y)
+		switch {
+		case lhs == "length" && be.Op == token.GTR && rhs == "maxPacketLength" && pi.nodeText(is.Body) == "{ return nil, ErrLongPacket }":
+			if r.longCheck {
+				u.fail("filexfer readPacket: second limit check at %s", pi.pos(is))
+			}
+			r.longCheck, r.limitIsParam = true, true
+		case lhs == "int(length)" && be.Op == token.LSS && allErrReturns(is.Body):
+			if v, ok := pi.exprInt(be.Y); ok && v >= 0 && !minSeen {
+				r.minLen, minSeen = v, true
+			} else {
+				u.fail("filexfer readPacket: unrecognised minimum-length check at %s: %s", pi.pos(is), pi.nodeText(is))
+			}
+		default:
+			u.fail("filexfer readPacket: unrecognised length check at %s: %s", pi.pos(is), pi.nodeText(is))
+		}
+	}
+	// optional allocation branch: exactly `if int(length) > cap(b) { b = make([]byte, length) }`
+	r.allocGuarded = true
+	if i < len(stmts) {
+		if is, ok := stmts[i].(*ast.IfStmt); ok {
+			if pi.nodeText(is) == "if int(length) > cap(b) { b = make([]byte, length) }" {
+				i++
+			} else {
+				r.allocGuarded = false
+				u.fail("filexfer readPacket: allocation branch is not exactly `if int(length) > cap(b) { b = make([]byte, length) }` at %s: %s", pi.pos(is), pi.nodeText(is))
+				i++
+			}
+		}
+	}
+	if i+2 == len(stmts) && pi.nodeText(stmts[i]) == "n, err := io.ReadFull(r, b[:length])" && pi.nodeText(stmts[i+1]) == "return b[:n], err" {
+		r.readsFull = true
+	} else {
+		u.fail("filexfer readPacket: tail is not `n, err := io.ReadFull(r, b[:length]); return b[:n], err` (%s)", r.pos)
+	}
+	// any make / read of the body anywhere else in the function?
+	nMake, nRead := 0, 0
+	ast.Inspect(fd.Body, func(n ast.Node) bool {
+		if call, ok := n.(*ast.CallExpr); ok {
+			if isIdent(call.Fun, "make") {
+				nMake++
+			}
+			if strings.HasPrefix(pi.nodeText(call.Fun), "io.") || strings.Contains(pi.nodeText(call.Fun), "Read") {
+				nRead++
+			}
+		}
+		return true
+	})
+	if nMake > 2 || nRead != 2 {
+		u.fail("filexfer readPacket: %d make and %d read calls, expected at most 2 and exactly 2 (%s)", nMake, nRead, r.pos)
+		r.readsFull = false
+	}
+	if !r.longCheck {
+		u.fail("filexfer readPacket: no `if length > maxPacketLength { return nil, ErrLongPacket }` at top level before the body is allocated or read — the limit check does not dominate them (%s)", r.pos)
+	}
+	if !minSeen || r.minLen < 1 {
+		u.fail("filexfer readPacket: no minimum-length check (a zero-length frame is not refused) (%s)", r.pos)
+	}
+	// the two exported wrappers pass buffer and limit through unchanged and deliver only on success
+	r.wrappersOK = true
+	for _, w := range []string{"RawPacket.ReadFrom", "RequestPacket.ReadFrom"} {
+		wd := pi.funcDecl(w)
+		if got := pi.bodyText(wd); got != canonFxReadFromRaw {
+			r.wrappersOK = false
+			u.fail("filexfer %s is not readPacket(r, b, maxPacketLength) + UnmarshalFrom on success: %s", w, got)
+			continue
+		}
+		var ps []string
+		for _, f := range wd.Type.Params.List {
+			for _, n := range f.Names {
+				ps = append(ps, n.Name+" "+pi.nodeText(f.Type))
+			}
+		}
+		if strings.Join(ps, ", ") != "r io.Reader, b []byte, maxPacketLength uint32" {
+			r.wrappersOK = false
+			u.fail("filexfer %s: unexpected parameters (%s)", w, strings.Join(ps, ", "))
+		}
+	}
+	return r
+}
+
+func (c *codecX) emitFxRecv() {
+	u := c.u
+	r := c.extractFxRecv()
+	u.pf("\n-- source: internal/encoding/ssh/filexfer %s readPacket (RawPacket.ReadFrom, RequestPacket.ReadFrom)\n", r.pos)
+	u.pf("-- `if length > maxPacketLength { return nil, ErrLongPacket }` is a top-level statement before any allocation/read of the body\n")
+	u.pf("def fxRecvLongCheck : Bool := %s\n", leanBool(r.longCheck))
+	u.pf("-- the limit is the caller's maxPacketLength, passed through unchanged by both ReadFrom wrappers\n")
+	u.pf("def fxRecvLimitIsParam : Bool := %s\n", leanBool(r.limitIsParam && r.wrappersOK))
+	u.pf("-- declared lengths below this are refused (type byte + request id); 0 if there is no such check\n")
+	u.pf("def fxRecvMinLen : Nat := %d\n", r.minLen)
+	u.pf("-- the body is allocated only as `if int(length) > cap(b) { b = make([]byte, length) }` after the checks\n")
+	u.pf("def fxRecvAllocAfterChecks : Bool := %s\n", leanBool(r.allocGuarded && r.longCheck))
+	u.pf("-- body read with io.ReadFull(r, b[:length]); its error is returned; the wrappers decode only on success\n")
+	u.pf("def fxRecvReadsFull : Bool := %s\n", leanBool(r.readsFull && r.wrappersOK))
+	u.pf("def fxDefaultMaxPacketLength : Nat := %d\n", r.defaultMax)
 }
